@@ -1,7 +1,1130 @@
-//! C11 — correspondence harness (stub; see /verif/AGENT_GUIDE.md).
+//! C11 — transaction-pool bookkeeping. Drives the real `PoolMap` / `TxPool` of ckb-tx-pool in-process
+//! (through the add-only `verif` hook module: pass-through wrappers + read-only dump) on generated
+//! operation sequences over random transaction DAGs; no node, no scripts: entries are built with
+//! `TxEntry::new_with_timestamp(dummy_resolve(tx), cycles, fee, size, ts)` exactly like the unit tests
+//! in tx-pool/src/component/tests, and `TxPool::new` gets a real `Snapshot` over a scratch RocksDB
+//! whose genesis block holds the "confirmed" root transactions (`transaction_exists` in `check_rbf`).
+//!
+//! Protocol (model side: lean/CkbVerif/Driver/C11.lean), ids are small integers:
+//!   cfg <max_ancestors> <max_pool_size> <min_fee_rate> <min_rbf_rate> <expiry_ms> <chain ids>  -> ok
+//!   tx <id> <inputs t:i,..> <deps t:i,..> <header deps h,..> <nout> <size> <cycles> <fee>        -> ok
+//!   add <id> <p|g|r> <ts>     PoolMap::add_entry                 -> ok <evicted> | dup | rej-anc | panic
+//!   rm <id>                   PoolMap::remove_entry              -> ok | none
+//!   rmd <id>                  PoolMap::remove_entry_and_descendants -> ok <removed>
+//!   set <id> <p|g|r>          PoolMap::set_entry                 -> ok | none
+//!   commit <id>               TxPool::remove_committed_txs([tx]) -> ok <removed as conflicts>
+//!   hdr <h,..>                TxPool::remove_committed_txs([], detached headers) -> ok <removed>
+//!   limit                     TxPool::limit_size(None)           -> ok <removed>
+//!   expire <now> <order>      TxPool::remove_expired at faketime `now`; `order` is the order in which
+//!                             the implementation removed them (slab order: an input of the model) -> ok <expired set>
+//!   detach <ids>              TxPool::remove_by_detached_proposal -> ok
+//!   rbf <id>                  TxPool::check_rbf                  -> ok <conflicts> | rbf-unconfirmed | rbf-struct | rbf-dep | rbf-fee
+//!   submit <id> <st> <ts>     the locked section of submit_entry: check_rbf | conflict test, process_rbf's
+//!                             removals, add_entry, limit_size(Some(id)) -> ok R=.. E=.. L=.. | full R=.. E=.. L=.. | rbf-* | dead | add-<res>
+//!   dump                      -> every piece of bookkeeping, canonically sorted
+//! Every state-changing op is followed by a `dump`.
 use crate::common::*;
+use ckb_app_config::TxPoolConfig;
+use ckb_chain_spec::consensus::{Consensus, ConsensusBuilder};
+use ckb_proposal_table::ProposalView;
+use ckb_snapshot::Snapshot;
+use ckb_store::{ChainDB, ChainStore};
+use ckb_tx_pool::verif::{Callbacks, PoolDump, Reject, Status, TxEntry, TxPool};
+use ckb_types::core::cell::ResolvedTransaction;
+use ckb_types::core::tx_pool::get_transaction_weight;
+use ckb_types::core::{Capacity, FeeRate, TransactionBuilder, TransactionView};
+use ckb_types::packed::{self, Byte32, CellDep, CellInput, CellOutput, OutPoint, ProposalShortId};
+use ckb_types::prelude::*;
+use std::collections::{BTreeMap, BTreeSet, HashMap, HashSet};
+use std::path::PathBuf;
+use std::sync::{Arc, Mutex};
 
-pub fn run(_opts: &Opts) {
-    eprintln!("C11: harness not implemented in this crate");
-    std::process::exit(2);
+const N_ROOTS: u64 = 3;
+const ROOT_OUTS: u64 = 8;
+const HOUR_MS: u64 = 3_600_000;
+
+#[derive(Clone)]
+struct TxDecl {
+    id: u64,
+    inputs: Vec<(u64, u64)>,
+    deps: Vec<(u64, u64)>,
+    hdeps: Vec<u64>,
+    nout: u64,
+    size: u64,
+    cycles: u64,
+    fee: u64,
+    view: TransactionView,
+}
+
+fn header_hash(h: u64) -> Byte32 {
+    let mut b = [0u8; 32];
+    b[0] = 0xAB;
+    b[1..9].copy_from_slice(&h.to_le_bytes());
+    b.pack()
+}
+
+struct World {
+    base: PathBuf,
+    snapshot: Arc<Snapshot>,
+    root_views: Vec<TransactionView>,
+}
+
+impl World {
+    /// one scratch store per process: genesis = default cellbase + N_ROOTS root transactions
+    fn new(base: &std::path::Path) -> World {
+        let _ = std::fs::remove_dir_all(base);
+        std::fs::create_dir_all(base).unwrap();
+        let mut root_views = vec![];
+        for r in 0..N_ROOTS {
+            let tx = TransactionBuilder::default()
+                .outputs((0..ROOT_OUTS).map(|i| CellOutput::new_builder().capacity(Capacity::shannons(1000 + r * 100 + i)).build()))
+                .outputs_data((0..ROOT_OUTS).map(|_| packed::Bytes::default()))
+                .build();
+            root_views.push(tx);
+        }
+        let dflt = Consensus::default();
+        let genesis = dflt.genesis_block().as_advanced_builder().transactions(root_views.clone()).build();
+        let epoch_ext = dflt.genesis_epoch_ext().clone();
+        let consensus = ConsensusBuilder::new(genesis.clone(), epoch_ext.clone()).build();
+        let db = ckb_db::RocksDB::open_in(base.join("db"), ckb_db_schema::COLUMNS);
+        let store = ChainDB::new(db, Default::default());
+        store.init(&consensus).expect("init store");
+        let snapshot = Snapshot::new(
+            genesis.header(),
+            genesis.difficulty(),
+            epoch_ext,
+            store.get_snapshot(),
+            ProposalView::default(),
+            Arc::new(consensus),
+        );
+        assert!(snapshot.transaction_exists(&root_views[0].hash()));
+        World { base: base.to_path_buf(), snapshot: Arc::new(snapshot), root_views }
+    }
+}
+
+#[derive(Clone, Copy, PartialEq, Eq, Debug)]
+enum Taint {
+    None,
+    F2,
+    F3,
+    Mid,
+}
+
+struct Cfg {
+    max_anc: u64,
+    max_size: u64,
+    min_fee_rate: u64,
+    min_rbf_rate: u64,
+}
+
+struct Sim {
+    cfg: Cfg,
+    pool: TxPool,
+    txs: BTreeMap<u64, TxDecl>,
+    by_short: HashMap<ProposalShortId, u64>,
+    by_hash: HashMap<Byte32, u64>,
+    chain: BTreeSet<u64>,
+    callbacks: Callbacks,
+    rejected: Arc<Mutex<Vec<ProposalShortId>>>,
+    taint: Taint,
+    reported: bool,
+    dead: bool,
+    // statistics of the case
+    max_pool: usize,
+    kinds: BTreeSet<&'static str>,
+}
+
+fn status_of(s: &str) -> Status {
+    match s {
+        "p" => Status::Pending,
+        "g" => Status::Gap,
+        "r" => Status::Proposed,
+        _ => panic!("bad status {s}"),
+    }
+}
+fn status_ch(s: Status) -> &'static str {
+    match s {
+        Status::Pending => "p",
+        Status::Gap => "g",
+        Status::Proposed => "r",
+    }
+}
+
+fn set_str<I: IntoIterator<Item = u64>>(it: I) -> String {
+    let s: BTreeSet<u64> = it.into_iter().collect();
+    if s.is_empty() { "-".into() } else { s.iter().map(|x| x.to_string()).collect::<Vec<_>>().join(",") }
+}
+fn list_str(v: &[u64]) -> String {
+    if v.is_empty() { "-".into() } else { v.iter().map(|x| x.to_string()).collect::<Vec<_>>().join(",") }
+}
+fn pts_str(v: &[(u64, u64)]) -> String {
+    if v.is_empty() { "-".into() } else { v.iter().map(|(t, i)| format!("{t}:{i}")).collect::<Vec<_>>().join(",") }
+}
+fn parse_list(s: &str) -> Vec<u64> {
+    if s == "-" { vec![] } else { s.split(',').map(|x| x.parse().expect("num")).collect() }
+}
+fn parse_pts(s: &str) -> Vec<(u64, u64)> {
+    if s == "-" {
+        vec![]
+    } else {
+        s.split(',')
+            .map(|x| {
+                let (a, b) = x.split_once(':').expect("pt");
+                (a.parse().unwrap(), b.parse().unwrap())
+            })
+            .collect()
+    }
+}
+
+/// canonical, id-based copy of the dump
+#[derive(Clone, Default)]
+struct View {
+    /// id -> (status, ts, anc[4], desc[4])
+    entries: BTreeMap<u64, (Status, u64, [u64; 4], [u64; 4])>,
+    links: BTreeMap<u64, (BTreeSet<u64>, BTreeSet<u64>)>,
+    inputs: BTreeMap<(u64, u64), u64>,
+    deps: BTreeMap<(u64, u64), BTreeSet<u64>>,
+    hdeps: BTreeMap<u64, Vec<u64>>,
+    total_size: u64,
+    total_cycles: u64,
+    counts: [u64; 3],
+    keys_ok: bool,
+}
+
+impl Sim {
+    fn new(world: &World, cfg: Cfg) -> Sim {
+        let config = TxPoolConfig {
+            max_tx_pool_size: cfg.max_size as usize,
+            min_fee_rate: FeeRate::from_u64(cfg.min_fee_rate),
+            min_rbf_rate: FeeRate::from_u64(cfg.min_rbf_rate),
+            max_tx_verify_cycles: u64::MAX,
+            max_tx_verify_workers: 1,
+            max_ancestors_count: cfg.max_anc as usize,
+            keep_rejected_tx_hashes_days: 1,
+            keep_rejected_tx_hashes_count: 1,
+            persisted_data: Default::default(),
+            recent_reject: Default::default(),
+            expiry_hours: 1,
+        };
+        let pool = TxPool::new(config, Arc::clone(&world.snapshot));
+        let rejected = Arc::new(Mutex::new(vec![]));
+        let mut callbacks = Callbacks::new();
+        let r2 = Arc::clone(&rejected);
+        callbacks.register_reject(Box::new(move |_pool: &mut TxPool, e: &TxEntry, _r: Reject| {
+            r2.lock().unwrap().push(e.proposal_short_id());
+        }));
+        let mut sim = Sim {
+            cfg,
+            pool,
+            txs: BTreeMap::new(),
+            by_short: HashMap::new(),
+            by_hash: HashMap::new(),
+            chain: BTreeSet::new(),
+            callbacks,
+            rejected,
+            taint: Taint::None,
+            reported: false,
+            dead: false,
+            max_pool: 0,
+            kinds: BTreeSet::new(),
+        };
+        for (r, v) in world.root_views.iter().enumerate() {
+            sim.by_hash.insert(v.hash(), r as u64);
+            sim.by_short.insert(v.proposal_short_id(), r as u64);
+            sim.chain.insert(r as u64);
+            sim.txs.insert(
+                r as u64,
+                TxDecl { id: r as u64, inputs: vec![], deps: vec![], hdeps: vec![], nout: ROOT_OUTS, size: 0, cycles: 0, fee: 0, view: v.clone() },
+            );
+        }
+        sim
+    }
+
+    fn hash_of(&self, t: u64) -> Byte32 {
+        self.txs.get(&t).map(|d| d.view.hash()).unwrap_or_else(|| {
+            // an id that was never declared: an unknown transaction
+            let mut b = [0u8; 32];
+            b[0] = 0xEE;
+            b[1..9].copy_from_slice(&t.to_le_bytes());
+            b.pack()
+        })
+    }
+
+    fn declare(&mut self, id: u64, inputs: Vec<(u64, u64)>, deps: Vec<(u64, u64)>, hdeps: Vec<u64>, nout: u64, size: u64, cycles: u64, fee: u64) {
+        assert!(nout >= 1, "nout >= 1 keeps hashes distinct");
+        let view = TransactionBuilder::default()
+            .inputs(inputs.iter().map(|(t, i)| CellInput::new(OutPoint::new(self.hash_of(*t), *i as u32), 0)))
+            .cell_deps(deps.iter().map(|(t, i)| CellDep::new_builder().out_point(OutPoint::new(self.hash_of(*t), *i as u32)).build()))
+            .set_header_deps(hdeps.iter().map(|h| header_hash(*h)).collect())
+            .outputs((0..nout).map(|i| CellOutput::new_builder().capacity(Capacity::shannons(id * 1000 + i)).build()))
+            .outputs_data((0..nout).map(|_| packed::Bytes::default()))
+            .build();
+        self.by_hash.insert(view.hash(), id);
+        self.by_short.insert(view.proposal_short_id(), id);
+        self.txs.insert(id, TxDecl { id, inputs, deps, hdeps, nout, size, cycles, fee, view });
+    }
+
+    fn entry(&self, id: u64, ts: u64) -> TxEntry {
+        let d = &self.txs[&id];
+        let rtx = ResolvedTransaction::dummy_resolve(d.view.clone());
+        TxEntry::new_with_timestamp(Arc::new(rtx), d.cycles, Capacity::shannons(d.fee), d.size as usize, ts)
+    }
+
+    fn short(&self, id: u64) -> ProposalShortId {
+        self.txs[&id].view.proposal_short_id()
+    }
+    fn idof(&self, s: &ProposalShortId) -> u64 {
+        *self.by_short.get(s).unwrap_or(&999_999)
+    }
+    fn pt(&self, o: &OutPoint) -> (u64, u64) {
+        let idx: u32 = o.index().into();
+        (*self.by_hash.get(&o.tx_hash()).unwrap_or(&999_999), idx as u64)
+    }
+
+    fn view(&self) -> View {
+        let d: PoolDump = self.pool.verif_pool_map().verif_dump();
+        let mut v = View { keys_ok: true, ..Default::default() };
+        for e in &d.entries {
+            let t = &e.entry;
+            let id = self.idof(&e.id);
+            v.entries.insert(
+                id,
+                (
+                    e.status,
+                    t.timestamp,
+                    [t.ancestors_count as u64, t.ancestors_size as u64, t.ancestors_cycles, t.ancestors_fee.as_u64()],
+                    [t.descendants_count as u64, t.descendants_size as u64, t.descendants_cycles, t.descendants_fee.as_u64()],
+                ),
+            );
+            // the stored index keys must be the keys derived from the stored entry
+            if e.score != t.as_score_key() || e.evict_key != t.as_evict_key() {
+                v.keys_ok = false;
+            }
+        }
+        for (id, ps, cs) in &d.links {
+            v.links.insert(self.idof(id), (ps.iter().map(|x| self.idof(x)).collect(), cs.iter().map(|x| self.idof(x)).collect()));
+        }
+        for (o, id) in &d.inputs {
+            v.inputs.insert(self.pt(o), self.idof(id));
+        }
+        for (o, ids) in &d.deps {
+            v.deps.insert(self.pt(o), ids.iter().map(|x| self.idof(x)).collect());
+        }
+        for (id, hs) in &d.header_deps {
+            let hv = hs
+                .iter()
+                .map(|h| {
+                    let mut b = [0u8; 8];
+                    b.copy_from_slice(&h.as_slice()[1..9]);
+                    u64::from_le_bytes(b)
+                })
+                .collect();
+            v.hdeps.insert(self.idof(id), hv);
+        }
+        v.total_size = d.total_tx_size as u64;
+        v.total_cycles = d.total_tx_cycles;
+        v.counts = [d.pending_count as u64, d.gap_count as u64, d.proposed_count as u64];
+        v
+    }
+
+    fn dump_line(v: &View) -> String {
+        let j = |x: Vec<String>| if x.is_empty() { "-".to_string() } else { x.join(";") };
+        let w = |a: &[u64; 4]| format!("{},{},{},{}", a[0], a[1], a[2], a[3]);
+        let es = v.entries.iter().map(|(id, (st, ts, a, d))| format!("{}:{}:{}:{}:{}", id, status_ch(*st), ts, w(a), w(d))).collect();
+        let ls = v.links.iter().map(|(id, (p, c))| format!("{}:{}:{}", id, set_str(p.iter().copied()), set_str(c.iter().copied()))).collect();
+        let is = v.inputs.iter().map(|((t, i), id)| format!("{t}:{i}>{id}")).collect();
+        let ds = v.deps.iter().map(|((t, i), ids)| format!("{t}:{i}>{}", set_str(ids.iter().copied()))).collect();
+        let hs = v.hdeps.iter().map(|(id, h)| format!("{id}>{}", list_str(h))).collect();
+        format!(
+            "n={} P={} G={} R={} size={} cyc={} E={} L={} I={} D={} H={}",
+            v.entries.len(),
+            v.counts[0],
+            v.counts[1],
+            v.counts[2],
+            v.total_size,
+            v.total_cycles,
+            j(es),
+            j(ls),
+            j(is),
+            j(ds),
+            j(hs)
+        )
+    }
+
+    /// transitive closure over the dumped links (own BFS, independent of the pool's)
+    fn closure(v: &View, id: u64, parents: bool) -> BTreeSet<u64> {
+        let mut seen = BTreeSet::new();
+        let mut todo = vec![id];
+        while let Some(x) = todo.pop() {
+            if let Some((p, c)) = v.links.get(&x) {
+                for y in if parents { p } else { c } {
+                    if seen.insert(*y) {
+                        todo.push(*y);
+                    }
+                }
+            }
+        }
+        seen
+    }
+
+    fn fail(&mut self, out: &mut Out, class: &str, detail: String) {
+        if !self.reported {
+            out.oracle_fail(class, &detail);
+            self.reported = true;
+        }
+    }
+
+    /// The property evaluated on the implementation's own state (independent of the model).
+    fn oracle(&mut self, out: &mut Out, v: &View, after: &str) {
+        // (1) no two pooled transactions spend the same cell
+        let mut spent: BTreeMap<(u64, u64), u64> = BTreeMap::new();
+        let mut expect_deps: BTreeMap<(u64, u64), BTreeSet<u64>> = BTreeMap::new();
+        let mut expect_h: BTreeMap<u64, Vec<u64>> = BTreeMap::new();
+        for id in v.entries.keys() {
+            let d = self.txs[id].clone();
+            for i in &d.inputs {
+                if let Some(o) = spent.insert(*i, *id) {
+                    self.fail(out, "double-spend-in-pool", format!("after {after}: {o} and {id} both spend {}:{}", i.0, i.1));
+                }
+            }
+            for dp in &d.deps {
+                expect_deps.entry(*dp).or_default().insert(*id);
+            }
+            if !d.hdeps.is_empty() {
+                expect_h.insert(*id, d.hdeps.clone());
+            }
+        }
+        // (6) edges match entries
+        if spent != v.inputs || expect_deps != v.deps || expect_h != v.hdeps {
+            self.fail(out, "edges-do-not-match-entries", format!("after {after}"));
+        }
+        // (2) links <-> actual spends / dependencies between pooled transactions
+        let ids: Vec<u64> = v.entries.keys().copied().collect();
+        if v.links.keys().copied().collect::<Vec<_>>() != ids {
+            self.fail(out, "links-keys-differ-from-entries", format!("after {after}"));
+        }
+        for c in &ids {
+            let dc = self.txs[c].clone();
+            let (ps, _) = v.links.get(c).cloned().unwrap_or_default();
+            for p in &ids {
+                let spends = dc.inputs.iter().any(|(t, _)| t == p) || dc.deps.iter().any(|(t, _)| t == p);
+                // third kind: c consumes a cell that p only references as a cell dep (p must be committed first)
+                let dp = self.txs[p].clone();
+                let consumes_dep = p != c && dc.inputs.iter().any(|i| dp.deps.contains(i));
+                let linked = ps.contains(p);
+                let back = v.links.get(p).map(|l| l.1.contains(c)).unwrap_or(false);
+                if linked != back {
+                    self.fail(out, "links-not-symmetric", format!("after {after}: parent {p} child {c}"));
+                }
+                if spends && !linked {
+                    self.fail(out, "missing-link-for-actual-spend", format!("after {after}: {c} spends/depends on an output of {p}"));
+                }
+                if linked && !spends && !consumes_dep {
+                    self.fail(out, "link-without-spend-or-dependency", format!("after {after}: parent {p} child {c}"));
+                }
+            }
+            for p in &ps {
+                if !v.entries.contains_key(p) {
+                    self.fail(out, "link-to-transaction-not-in-pool", format!("after {after}: parent {p} of {c}"));
+                }
+            }
+        }
+        // (4) counts and totals
+        let mut cnt = [0u64; 3];
+        let (mut ts, mut tc) = (0u64, 0u64);
+        for (id, (st, _, _, _)) in &v.entries {
+            cnt[match st {
+                Status::Pending => 0,
+                Status::Gap => 1,
+                Status::Proposed => 2,
+            }] += 1;
+            ts += self.txs[id].size;
+            tc += self.txs[id].cycles;
+        }
+        if cnt != v.counts || ts != v.total_size || tc != v.total_cycles {
+            self.fail(out, "counts-or-totals-mismatch", format!("after {after}: counts {:?} vs {:?}, size {} vs {}, cycles {} vs {}", v.counts, cnt, v.total_size, ts, v.total_cycles, tc));
+        }
+        if !v.keys_ok {
+            self.fail(out, "stored-index-key-differs-from-entry", format!("after {after}"));
+        }
+        // (3) aggregates = recomputation from the current contents, (5) ancestor limit
+        for (id, (_, _, a, d)) in &v.entries {
+            let sum = |set: &BTreeSet<u64>| {
+                let mut w = [1u64, self.txs[id].size, self.txs[id].cycles, self.txs[id].fee];
+                for x in set {
+                    if x != id {
+                        if let Some(t) = self.txs.get(x) {
+                            w[0] += 1;
+                            w[1] += t.size;
+                            w[2] += t.cycles;
+                            w[3] += t.fee;
+                        }
+                    }
+                }
+                w
+            };
+            let anc = Self::closure(v, *id, true);
+            let desc = Self::closure(v, *id, false);
+            let (wa, wd) = (sum(&anc), sum(&desc));
+            let tainted = |plain: &str, t: Taint| -> String {
+                match t {
+                    Taint::None => plain.to_string(),
+                    Taint::F2 => "descendants-aggregate-stale-after-remove-with-descendants".to_string(),
+                    Taint::F3 => "descendants-aggregate-parent-added-after-children".to_string(),
+                    Taint::Mid => "aggregates-stale-after-remove-entry-with-ancestors-and-descendants".to_string(),
+                }
+            };
+            if wd != *d {
+                let c = tainted("descendants-aggregate-mismatch", self.taint);
+                self.fail(out, &c, format!("after {after}: tx {id} descendants_(count,size,cycles,fee)={:?} recomputed={:?}", d, wd));
+            }
+            if wa != *a {
+                let c = tainted("ancestors-aggregate-mismatch", self.taint);
+                self.fail(out, &c, format!("after {after}: tx {id} ancestors_(count,size,cycles,fee)={:?} recomputed={:?}", a, wa));
+            }
+            if wa[0] > self.cfg.max_anc || a[0] > self.cfg.max_anc {
+                let c = tainted("ancestors-limit-exceeded", self.taint);
+                self.fail(out, &c, format!("after {after}: tx {id} ancestors_count={} recomputed={} max={}", a[0], wa[0], self.cfg.max_anc));
+            }
+        }
+    }
+
+    fn set_taint(&mut self, t: Taint) {
+        if self.taint == Taint::None {
+            self.taint = t;
+        }
+    }
+
+    /// removed-with-descendants pattern (F2): some removed transaction had a parent that survives
+    fn taint_rmd(&mut self, before: &View, after: &View, exclude: Option<u64>) {
+        for (id, (ps, _)) in &before.links {
+            if after.entries.contains_key(id) || Some(*id) == exclude {
+                continue;
+            }
+            if ps.iter().any(|p| after.entries.contains_key(p)) {
+                self.set_taint(Taint::F2);
+            }
+        }
+    }
+    /// remove_entry of a transaction that has both pooled parents and pooled children
+    fn taint_mid(&mut self, before: &View, id: u64) {
+        if let Some((p, c)) = before.links.get(&id) {
+            if !p.is_empty() && !c.is_empty() {
+                self.set_taint(Taint::Mid);
+            }
+        }
+    }
+    /// parent added after its children (F3): a transaction that was not pooled before has children now
+    fn taint_add(&mut self, before: &View, after: &View) {
+        for (id, (_, cs)) in &after.links {
+            if !before.entries.contains_key(id) && !cs.is_empty() {
+                self.set_taint(Taint::F3);
+            }
+        }
+    }
+
+    fn drain_rejected(&mut self) -> Vec<u64> {
+        let v: Vec<ProposalShortId> = std::mem::take(&mut *self.rejected.lock().unwrap());
+        v.iter().map(|s| self.idof(s)).collect()
+    }
+
+    fn rbf_kind(r: &Reject) -> &'static str {
+        match r {
+            Reject::RBFRejected(m) if m.starts_with("new Tx contains unconfirmed inputs") => "rbf-unconfirmed",
+            Reject::RBFRejected(m) if m.starts_with("Tx conflict with too many txs") => "rbf-struct",
+            Reject::RBFRejected(m) if m.starts_with("Tx ancestors have common") => "rbf-struct",
+            Reject::RBFRejected(m) if m.starts_with("new Tx contains inputs in descendants") => "rbf-struct",
+            Reject::RBFRejected(m) if m.starts_with("new Tx contains cell deps from conflicts") => "rbf-dep",
+            Reject::RBFRejected(m) if m.starts_with("Tx's current fee is") => "rbf-fee",
+            _ => "rbf-other",
+        }
+    }
+
+    fn add_res(r: Result<Result<(bool, HashSet<TxEntry>), Reject>, ()>, sim: &Sim) -> String {
+        match r {
+            Err(()) => "panic".into(),
+            Ok(Ok((true, ev))) => format!("ok {}", set_str(ev.iter().map(|e| sim.idof(&e.proposal_short_id())))),
+            Ok(Ok((false, _))) => "dup".into(),
+            Ok(Err(Reject::ExceededMaximumAncestorsCount)) => "rej-anc".into(),
+            Ok(Err(Reject::RBFRejected(_))) => "rej-dbl".into(),
+            Ok(Err(_)) => "rej-other".into(),
+        }
+    }
+
+    /// Execute one op line on the real code; returns false when the case cannot continue.
+    fn exec(&mut self, out: &mut Out, line: &str) {
+        let t: Vec<&str> = line.split_whitespace().collect();
+        if self.dead {
+            return;
+        }
+        let before = if matches!(t[0], "tx" | "dump" | "rbf") { View::default() } else { self.view() };
+        let mut changed = true;
+        match t[0] {
+            "tx" => {
+                let id: u64 = t[1].parse().unwrap();
+                self.declare(id, parse_pts(t[2]), parse_pts(t[3]), parse_list(t[4]), t[5].parse().unwrap(), t[6].parse().unwrap(), t[7].parse().unwrap(), t[8].parse().unwrap());
+                out.op(line, "ok");
+                changed = false;
+            }
+            "add" => {
+                let id: u64 = t[1].parse().unwrap();
+                let st = status_of(t[2]);
+                let ts: u64 = t[3].parse().unwrap();
+                // PoolMap::add_entry requires (and TxPool guarantees) that conflicts were resolved before
+                let conflict = !self.pool.verif_pool_map().verif_find_conflict_tx(&self.txs[&id].view).is_empty();
+                assert!(!conflict, "malformed sequence: raw add of a conflicting transaction");
+                let e = self.entry(id, ts);
+                let r = std::panic::catch_unwind(std::panic::AssertUnwindSafe(|| self.pool.verif_pool_map_mut().verif_add_entry(e, st))).map_err(|_| ());
+                let ans = Self::add_res(r, self);
+                out.op(line, &ans);
+                out.count("add");
+                if ans == "panic" {
+                    self.fail(out, "add-entry-panics-inconsistent-pool", format!("{line}: PoolMap::add_entry panicked"));
+                    self.dead = true;
+                    return;
+                }
+                if ans.starts_with("ok ") && ans != "ok -" {
+                    out.count("add-evicts-cell-dep-users");
+                    self.kinds.insert("evict-in-add");
+                }
+                if ans == "rej-anc" {
+                    out.count("add-rej-anc");
+                    self.kinds.insert("rej-anc");
+                }
+                let after = self.view();
+                self.taint_rmd(&before, &after, None);
+                self.taint_add(&before, &after);
+            }
+            "rm" => {
+                let id: u64 = t[1].parse().unwrap();
+                self.taint_mid(&before, id);
+                let s = self.short(id);
+                let r = self.pool.verif_pool_map_mut().verif_remove_entry(&s);
+                out.op(line, if r.is_some() { "ok" } else { "none" });
+                out.count("rm");
+            }
+            "rmd" => {
+                let id: u64 = t[1].parse().unwrap();
+                let s = self.short(id);
+                let r = self.pool.verif_pool_map_mut().verif_remove_entry_and_descendants(&s);
+                out.op(line, &format!("ok {}", set_str(r.iter().map(|e| self.idof(&e.proposal_short_id())))));
+                out.count("rmd");
+                let after = self.view();
+                self.taint_rmd(&before, &after, None);
+            }
+            "set" => {
+                let id: u64 = t[1].parse().unwrap();
+                let s = self.short(id);
+                if before.entries.contains_key(&id) {
+                    self.pool.verif_pool_map_mut().verif_set_entry(&s, status_of(t[2]));
+                    out.op(line, "ok");
+                } else {
+                    out.op(line, "none");
+                }
+                out.count("set");
+            }
+            "commit" => {
+                let id: u64 = t[1].parse().unwrap();
+                self.taint_mid(&before, id);
+                let view = self.txs[&id].view.clone();
+                let cb = std::mem::replace(&mut self.callbacks, Callbacks::new());
+                self.pool.verif_remove_committed_txs(std::iter::once(&view), &cb, &HashSet::new());
+                self.callbacks = cb;
+                self.chain.insert(id);
+                let rej = self.drain_rejected();
+                out.op(line, &format!("ok {}", set_str(rej.iter().copied())));
+                out.count("commit");
+                if !rej.is_empty() {
+                    out.count("commit-removes-conflicts");
+                    self.kinds.insert("commit-conflict");
+                }
+                let after = self.view();
+                self.taint_rmd(&before, &after, Some(id));
+            }
+            "hdr" => {
+                let hs: HashSet<Byte32> = parse_list(t[1]).iter().map(|h| header_hash(*h)).collect();
+                let cb = std::mem::replace(&mut self.callbacks, Callbacks::new());
+                self.pool.verif_remove_committed_txs(std::iter::empty(), &cb, &hs);
+                self.callbacks = cb;
+                let rej = self.drain_rejected();
+                out.op(line, &format!("ok {}", set_str(rej.iter().copied())));
+                out.count("hdr");
+                if !rej.is_empty() {
+                    self.kinds.insert("hdr-removes");
+                }
+                let after = self.view();
+                self.taint_rmd(&before, &after, None);
+            }
+            "limit" => {
+                let cb = std::mem::replace(&mut self.callbacks, Callbacks::new());
+                self.pool.verif_limit_size(&cb, None);
+                self.callbacks = cb;
+                let rej = self.drain_rejected();
+                out.op(line, &format!("ok {}", set_str(rej.iter().copied())));
+                out.count("limit");
+                if !rej.is_empty() {
+                    out.count("limit-evicts");
+                    self.kinds.insert("limit-evicts");
+                }
+                let after = self.view();
+                self.taint_rmd(&before, &after, None);
+            }
+            "expire" => {
+                let now: u64 = t[1].parse().unwrap();
+                let cb = std::mem::replace(&mut self.callbacks, Callbacks::new());
+                {
+                    let g = ckb_systemtime::faketime();
+                    g.set_faketime(now);
+                    self.pool.verif_remove_expired(&cb);
+                }
+                self.callbacks = cb;
+                let order = self.drain_rejected();
+                for id in &order {
+                    self.taint_mid(&before, *id);
+                }
+                // the oracle for the set itself: exactly the entries with expiry + ts < now
+                let want: BTreeSet<u64> = before.entries.iter().filter(|(_, e)| HOUR_MS + e.1 < now).map(|(id, _)| *id).collect();
+                if want != order.iter().copied().collect() {
+                    self.fail(out, "expired-set-wrong", format!("{line}: removed {:?} expected {:?}", order, want));
+                }
+                out.op(&format!("expire {} {}", now, list_str(&order)), &format!("ok {}", set_str(order.iter().copied())));
+                out.count("expire");
+                if !order.is_empty() {
+                    self.kinds.insert("expire-removes");
+                }
+            }
+            "detach" => {
+                let ids = parse_list(t[1]);
+                // F2 pattern inside: the removed set (ids that are gap/proposed, with descendants) has surviving parents
+                let mut s: BTreeSet<u64> = BTreeSet::new();
+                for id in &ids {
+                    if let Some(e) = before.entries.get(id) {
+                        if e.0 != Status::Pending {
+                            s.insert(*id);
+                            s.extend(Self::closure(&before, *id, false));
+                        }
+                    }
+                }
+                for y in &s {
+                    if let Some((ps, _)) = before.links.get(y) {
+                        if ps.iter().any(|p| !s.contains(p)) {
+                            self.set_taint(Taint::F2);
+                        }
+                    }
+                }
+                // the re-insertion order is by the stored ancestors_count; with an unstable sort a tie between
+                // related entries would make the outcome order-dependent
+                let mut ambiguous = false;
+                for a in &s {
+                    for b in &s {
+                        if a < b && before.entries[a].2[0] == before.entries[b].2[0] && (Self::closure(&before, *a, true).contains(b) || Self::closure(&before, *b, true).contains(a)) {
+                            ambiguous = true;
+                        }
+                    }
+                }
+                let shorts: Vec<ProposalShortId> = ids.iter().map(|i| self.short(*i)).collect();
+                self.pool.verif_remove_by_detached_proposal(shorts.iter());
+                if ambiguous {
+                    out.count("detach-ambiguous-order");
+                    self.dead = true;
+                    return;
+                }
+                out.op(line, "ok");
+                out.count("detach");
+                if !s.is_empty() {
+                    self.kinds.insert("detach-readd");
+                }
+                let after = self.view();
+                let _ = after;
+            }
+            "rbf" => {
+                let id: u64 = t[1].parse().unwrap();
+                let e = self.entry(id, 0);
+                let snap = self.pool.verif_snapshot();
+                let ans = match self.pool.verif_check_rbf(&snap, &e) {
+                    Ok(c) => format!("ok {}", set_str(c.iter().map(|s| self.idof(s)))),
+                    Err(r) => Self::rbf_kind(&r).to_string(),
+                };
+                out.op(line, &ans);
+                out.count("rbf");
+                changed = false;
+            }
+            "submit" => {
+                let id: u64 = t[1].parse().unwrap();
+                let st = status_of(t[2]);
+                let ts: u64 = t[3].parse().unwrap();
+                let e = self.entry(id, ts);
+                let d = self.txs[&id].clone();
+                let rbf_on = self.pool.enable_rbf();
+                let pre: Result<HashSet<ProposalShortId>, String> = if rbf_on {
+                    let snap = self.pool.verif_snapshot();
+                    self.pool.verif_check_rbf(&snap, &e).map_err(|r| Self::rbf_kind(&r).to_string())
+                } else if self.pool.verif_pool_map().verif_find_conflict_tx(&d.view).is_empty() {
+                    Ok(HashSet::new())
+                } else {
+                    Err("dead".into())
+                };
+                out.count("submit");
+                match pre {
+                    Err(k) => {
+                        out.count(&format!("submit-{k}"));
+                        self.kinds.insert("rbf-rejected");
+                        // oracle of the fee rule, on the harness's own tables: a rejection for fee must be justified
+                        out.op(line, &k);
+                        changed = false;
+                    }
+                    Ok(conflicts) => {
+                        // process_rbf: remove every conflict with its descendants
+                        let mut replaced: Vec<u64> = vec![];
+                        for c in &conflicts {
+                            for r in self.pool.verif_pool_map_mut().verif_remove_entry_and_descendants(c) {
+                                replaced.push(self.idof(&r.proposal_short_id()));
+                            }
+                        }
+                        if !replaced.is_empty() {
+                            out.count("submit-replaces");
+                            self.kinds.insert("rbf-replaces");
+                            // RBF fee rule, independently: fee >= sum(replaced fees) + min_rbf_rate * size / 1000
+                            let need: u64 = replaced.iter().map(|r| self.txs[r].fee).sum::<u64>() + self.cfg.min_rbf_rate * d.size / 1000;
+                            if d.fee < need {
+                                self.fail(out, "rbf-admitted-below-required-fee", format!("{line}: fee {} < {}", d.fee, need));
+                            }
+                        }
+                        let r = std::panic::catch_unwind(std::panic::AssertUnwindSafe(|| self.pool.verif_pool_map_mut().verif_add_entry(e, st))).map_err(|_| ());
+                        let ans = Self::add_res(r, self);
+                        if ans == "panic" {
+                            out.op(line, "add-panic");
+                            self.fail(out, "add-entry-panics-inconsistent-pool", format!("{line}: PoolMap::add_entry panicked"));
+                            self.dead = true;
+                            return;
+                        }
+                        if let Some(ev) = ans.strip_prefix("ok ") {
+                            let cb = std::mem::replace(&mut self.callbacks, Callbacks::new());
+                            let sid = self.short(id);
+                            let full = self.pool.verif_limit_size(&cb, Some(&sid));
+                            self.callbacks = cb;
+                            let lim = self.drain_rejected();
+                            if !lim.is_empty() {
+                                out.count("submit-limit-evicts");
+                                self.kinds.insert("limit-evicts");
+                            }
+                            let head = if full.is_some() { "full" } else { "ok" };
+                            out.op(line, &format!("{head} R={} E={} L={}", set_str(replaced.iter().copied()), ev, set_str(lim.iter().copied())));
+                            // never both the replaced and the replacing transaction
+                            let after = self.view();
+                            if after.entries.contains_key(&id) && replaced.iter().any(|r| after.entries.contains_key(r)) {
+                                self.fail(out, "rbf-replaced-and-replacing-coexist", format!("{line}"));
+                            }
+                        } else {
+                            out.op(line, &format!("add-{ans}"));
+                        }
+                        let after = self.view();
+                        self.taint_rmd(&before, &after, None);
+                        self.taint_add(&before, &after);
+                    }
+                }
+            }
+            "dump" => {
+                let v = self.view();
+                out.op(line, &Self::dump_line(&v));
+                changed = false;
+            }
+            other => panic!("malformed op line: {other}"),
+        }
+        if changed {
+            let v = self.view();
+            self.max_pool = self.max_pool.max(v.entries.len());
+            out.op("dump", &Self::dump_line(&v));
+            self.oracle(out, &v, line);
+        }
+    }
+}
+
+// ------------------------------------------------------------------------------------------ generator
+
+struct Gen<'a> {
+    rng: &'a mut Rng,
+    next_id: u64,
+    ts: u64,
+    /// outputs known so far: (tx, idx)
+    outs: Vec<(u64, u64)>,
+    clean: bool,
+}
+
+impl<'a> Gen<'a> {
+    fn fresh_tx(&mut self, sim: &Sim, v: &View, mode: u64) -> String {
+        let id = self.next_id;
+        self.next_id += 1;
+        let pooled: Vec<u64> = v.entries.keys().copied().collect();
+        let spent: BTreeSet<(u64, u64)> = v.inputs.keys().copied().collect();
+        let unspent = |o: &(u64, u64), sim: &Sim| !spent.contains(o) && (sim.chain.contains(&o.0) || v.entries.contains_key(&o.0));
+        let mut inputs: Vec<(u64, u64)> = vec![];
+        let mut deps: Vec<(u64, u64)> = vec![];
+        let n_in = 1 + self.rng.below(3);
+        for _ in 0..n_in {
+            let pick = match mode {
+                // conflict: spend something a pooled tx already spends
+                1 if !spent.is_empty() && inputs.is_empty() => Some(*self.rng.pick(&spent.iter().copied().collect::<Vec<_>>())),
+                // consume a cell that pooled txs reference as dep
+                2 if !v.deps.is_empty() && inputs.is_empty() => Some(*self.rng.pick(&v.deps.keys().copied().collect::<Vec<_>>())),
+                _ => {
+                    // prefer outputs of pooled txs (chains / diamonds), else confirmed roots
+                    let cands: Vec<(u64, u64)> = self.outs.iter().filter(|o| unspent(o, sim) && (self.rng.0 & 1 == 0 || pooled.contains(&o.0))).copied().collect();
+                    let cands: Vec<(u64, u64)> = if cands.is_empty() { self.outs.iter().filter(|o| unspent(o, sim)).copied().collect() } else { cands };
+                    let biased: Vec<(u64, u64)> = cands.iter().filter(|o| pooled.contains(&o.0)).copied().collect();
+                    if !biased.is_empty() && self.rng.chance(3, 4) { Some(*self.rng.pick(&biased)) } else if !cands.is_empty() { Some(*self.rng.pick(&cands)) } else { None }
+                }
+            };
+            if let Some(p) = pick {
+                if !inputs.contains(&p) && (mode == 2 || !v.deps.contains_key(&p) || self.rng.chance(1, 6)) {
+                    inputs.push(p);
+                }
+            }
+        }
+        if inputs.is_empty() {
+            // an input nobody knows (orphan-like at PoolMap level) keeps the tx well-formed
+            inputs.push((900 + id, 0));
+        }
+        if self.rng.chance(1, 3) {
+            let n_dep = 1 + self.rng.below(2);
+            for _ in 0..n_dep {
+                let cands: Vec<(u64, u64)> = self.outs.iter().filter(|o| !spent.contains(o) && !inputs.contains(o)).copied().collect();
+                if !cands.is_empty() {
+                    let p = *self.rng.pick(&cands);
+                    if !deps.contains(&p) {
+                        deps.push(p);
+                    }
+                }
+            }
+        }
+        let hdeps = if self.rng.chance(1, 6) { vec![self.rng.range(1, 3)] } else { vec![] };
+        let nout = self.rng.range(1, 3);
+        let size = self.rng.range(100, 400);
+        let cycles = match self.rng.below(4) {
+            0 => self.rng.range(0, 1000),
+            1 => self.rng.range(1_000_000, 5_000_000),
+            _ => self.rng.range(10_000, 900_000),
+        };
+        let rate = *self.rng.pick(&[400u64, 900, 1000, 1000, 1500, 2000, 2500, 4000, 9000]);
+        let fee = size * rate / 1000 + self.rng.below(3);
+        for i in 0..nout {
+            self.outs.push((id, i));
+        }
+        format!("tx {} {} {} {} {} {} {} {}", id, pts_str(&inputs), pts_str(&deps), list_str(&hdeps), nout, size, cycles, fee)
+    }
+
+    fn next_ts(&mut self) -> u64 {
+        self.ts += match self.rng.below(5) {
+            0 => 1,
+            1 => self.rng.range(1_000_000, 2_500_000),
+            _ => self.rng.range(2, 500_000),
+        };
+        self.ts
+    }
+
+    fn status(&mut self) -> &'static str {
+        *self.rng.pick(&["p", "p", "p", "g", "r", "r"])
+    }
+}
+
+fn run_case(out: &mut Out, rng: &mut Rng, world: &World, n_ops: usize, clean: bool) {
+    let max_anc = *rng.pick(&[2u64, 3, 3, 4, 5, 25]);
+    let max_size = *rng.pick(&[600u64, 900, 1500, 2500, 1_000_000]);
+    let min_rbf = *rng.pick(&[1500u64, 1500, 2000, 1000]);
+    let cfg = Cfg { max_anc, max_size, min_fee_rate: 1000, min_rbf_rate: min_rbf };
+    out.begin_case(&format!("anc={max_anc} size={max_size} rbf={min_rbf} clean={}", clean as u8));
+    out.op(&format!("cfg {} {} 1000 {} {} {}", max_anc, max_size, min_rbf, HOUR_MS, set_str(0..N_ROOTS)), "ok");
+    let mut sim = Sim::new(world, cfg);
+    let mut g = Gen { rng, next_id: 10, ts: 1000, outs: vec![], clean };
+    for r in 0..N_ROOTS {
+        for i in 0..ROOT_OUTS {
+            g.outs.push((r, i));
+        }
+    }
+    // transactions declared but not pooled (candidates for "parent added after children", re-adds, commits)
+    let mut declared: Vec<u64> = vec![];
+    for _ in 0..n_ops {
+        if sim.dead {
+            break;
+        }
+        let v = sim.view();
+        let pooled: Vec<u64> = v.entries.keys().copied().collect();
+        let k = g.rng.below(100);
+        match k {
+            0..=34 => {
+                // submit / add a fresh transaction
+                let mode = match g.rng.below(10) {
+                    0..=1 => 1,
+                    2 => 2,
+                    _ => 0,
+                };
+                let line = g.fresh_tx(&sim, &v, mode);
+                let id: u64 = line.split_whitespace().nth(1).unwrap().parse().unwrap();
+                sim.exec(out, &line);
+                let st = g.status();
+                let ts = g.next_ts();
+                let conflict = !sim.pool.verif_pool_map().verif_find_conflict_tx(&sim.txs[&id].view).is_empty();
+                if g.rng.chance(1, 5) {
+                    // declared only: pooled later (possibly after its children) or committed directly
+                    declared.push(id);
+                } else if conflict || g.rng.chance(1, 2) {
+                    if conflict && g.rng.chance(1, 3) {
+                        sim.exec(out, &format!("rbf {id}"));
+                    }
+                    sim.exec(out, &format!("submit {id} {st} {ts}"));
+                } else {
+                    sim.exec(out, &format!("add {id} {st} {ts}"));
+                }
+            }
+            35..=44 => {
+                // pool a declared-only transaction (its children may already be pooled: F3 pattern)
+                if let Some(&id) = declared.iter().find(|d| !pooled.contains(d) && !sim.chain.contains(d)) {
+                    declared.retain(|d| *d != id);
+                    let has_children = v.inputs.keys().any(|(t, _)| *t == id) || v.deps.keys().any(|(t, _)| *t == id);
+                    if g.clean && has_children {
+                        continue;
+                    }
+                    let conflict = !sim.pool.verif_pool_map().verif_find_conflict_tx(&sim.txs[&id].view).is_empty();
+                    let st = g.status();
+                    let ts = g.next_ts();
+                    if conflict {
+                        sim.exec(out, &format!("submit {id} {st} {ts}"));
+                    } else {
+                        sim.exec(out, &format!("add {id} {st} {ts}"));
+                    }
+                }
+            }
+            45..=52 => {
+                // re-add a transaction that was pooled before and removed
+                let cands: Vec<u64> = sim.txs.keys().filter(|i| **i >= 10 && !pooled.contains(i) && !sim.chain.contains(i)).copied().collect();
+                if !cands.is_empty() {
+                    let id = *g.rng.pick(&cands);
+                    let has_children = v.inputs.keys().any(|(t, _)| *t == id) || v.deps.keys().any(|(t, _)| *t == id);
+                    if g.clean && has_children {
+                        continue;
+                    }
+                    let st = g.status();
+                    let ts = g.next_ts();
+                    sim.exec(out, &format!("submit {id} {st} {ts}"));
+                }
+            }
+            53..=60 => {
+                if !pooled.is_empty() {
+                    let id = *g.rng.pick(&pooled);
+                    let (p, c) = v.links.get(&id).cloned().unwrap_or_default();
+                    if g.clean && !p.is_empty() && !c.is_empty() {
+                        continue;
+                    }
+                    sim.exec(out, &format!("rm {id}"));
+                }
+            }
+            61..=67 => {
+                if !pooled.is_empty() {
+                    let id = *g.rng.pick(&pooled);
+                    sim.exec(out, &format!("rmd {id}"));
+                }
+            }
+            68..=73 => {
+                if !pooled.is_empty() {
+                    let id = *g.rng.pick(&pooled);
+                    let st = g.status();
+                    sim.exec(out, &format!("set {id} {st}"));
+                }
+            }
+            74..=81 => {
+                // commit: a pooled root (the realistic case), any pooled tx, or a declared conflicting tx
+                let roots: Vec<u64> = pooled.iter().filter(|i| v.links.get(i).map(|l| l.0.is_empty()).unwrap_or(true)).copied().collect();
+                let id = if !roots.is_empty() && g.rng.chance(2, 3) {
+                    Some(*g.rng.pick(&roots))
+                } else if !declared.is_empty() && g.rng.chance(1, 2) {
+                    Some(*g.rng.pick(&declared))
+                } else if !pooled.is_empty() && !g.clean {
+                    Some(*g.rng.pick(&pooled))
+                } else {
+                    None
+                };
+                if let Some(id) = id {
+                    declared.retain(|d| *d != id);
+                    sim.exec(out, &format!("commit {id}"));
+                }
+            }
+            82..=84 => {
+                let h = g.rng.range(1, 3);
+                sim.exec(out, &format!("hdr {h}"));
+            }
+            85..=89 => sim.exec(out, "limit"),
+            90..=93 => {
+                let now = g.ts + *g.rng.pick(&[0u64, HOUR_MS / 2, HOUR_MS, HOUR_MS + 1]);
+                let now = now.saturating_sub(g.rng.below(3_000_000));
+                sim.exec(out, &format!("expire {now} -"));
+            }
+            _ => {
+                let cands: Vec<u64> = pooled.iter().filter(|i| v.entries[i].0 != Status::Pending).copied().collect();
+                if !cands.is_empty() {
+                    let mut ids = vec![*g.rng.pick(&cands)];
+                    if g.rng.chance(1, 3) {
+                        let b = *g.rng.pick(&cands);
+                        if !ids.contains(&b) {
+                            ids.push(b);
+                        }
+                    }
+                    sim.exec(out, &format!("detach {}", list_str(&ids)));
+                }
+            }
+        }
+    }
+    // non-trivial: the pool held at least 4 transactions with at least one link, and at least two
+    // different removal / eviction / replacement paths ran
+    let v = sim.view();
+    let _ = v;
+    if sim.max_pool >= 4 && sim.kinds.len() >= 2 {
+        out.nontrivial(format!("{:?} max_pool={} taint={:?}", sim.kinds, sim.max_pool, sim.taint));
+    }
+    out.count(&format!("case-taint-{:?}", sim.taint));
+}
+
+fn replay_case(out: &mut Out, world: &World, ops: &[String]) {
+    let mut sim: Option<Sim> = None;
+    for line in ops {
+        let t: Vec<&str> = line.split_whitespace().collect();
+        match t[0] {
+            "case" => {
+                out.begin_case(&t[2..].join(" "));
+            }
+            "cfg" => {
+                let cfg = Cfg { max_anc: t[1].parse().unwrap(), max_size: t[2].parse().unwrap(), min_fee_rate: t[3].parse().unwrap(), min_rbf_rate: t[4].parse().unwrap() };
+                assert_eq!(t[5], HOUR_MS.to_string(), "expiry is fixed to one hour");
+                assert_eq!(t[3], "1000");
+                out.op(line, "ok");
+                sim = Some(Sim::new(world, cfg));
+            }
+            "dump" => {} // re-emitted by exec after every state-changing op
+            _ => {
+                let s = sim.as_mut().expect("cfg first");
+                s.exec(out, line);
+            }
+        }
+    }
+}
+
+pub fn run(opts: &Opts) {
+    let base = PathBuf::from(format!("/dev/shm/verif-c11-{}", std::process::id()));
+    let world = World::new(&base);
+    let mut out = Out::new(&opts.out);
+    if let Some(rp) = &opts.replay {
+        let ops = read_replay_ops(rp);
+        replay_case(&mut out, &world, &ops);
+    } else {
+        let mut rng = Rng::new(opts.seed);
+        let cases = (if opts.thorough() { 6000 } else { 500 }) * opts.scale;
+        for c in 0..cases {
+            let n_ops = 8 + rng.below(30) as usize;
+            // 60% of the cases avoid the three patterns under which the code is known not to maintain the aggregates
+            let clean = c % 5 < 3;
+            run_case(&mut out, &mut rng, &world, n_ops, clean);
+        }
+    }
+    out.finish("pool held >= 4 transactions at some point and >= 2 distinct removal/eviction/replacement paths ran (evict-in-add, rej-anc, commit-conflict, hdr, limit, expire, detach, rbf-replace, rbf-reject)");
+    drop(world.snapshot);
+    let _ = std::fs::remove_dir_all(&world.base);
 }
